@@ -1,2 +1,8 @@
 #!/bin/sh
-exit 0
+# Builds the framework once, offline, from files on disk only.
+set -e
+cd "$(dirname "$0")"
+export CARGO_NET_OFFLINE=true
+mkdir -p evidence replays work
+( cd harness && cargo build --release -p lsv )
+echo "setup done"
